@@ -236,6 +236,11 @@ def _alpha_for(n: int, winner: int, rng: random.Random):
     top = max(lv)
     i = lv.index(top)
     lv[i], lv[winner] = lv[winner], lv[i]
+    # an EXACT tie for the maximum now and then (the same float twice): nothing is ambiguous then - torch.argmax, the
+    # one-hot of the hard / eval-mode sampler, summary() and export() all take the FIRST maximum, so the tied copy is
+    # placed behind the intended winner
+    if winner < n - 1 and rng.random() < 0.12:
+        lv[rng.randrange(winner + 1, n)] = lv[winner]
     scale = rng.choice([0.06, 0.06, 0.11, 0.5])
     off = rng.choice([0.0, -0.4, -3.0, 1.0])
     return [v * scale + off for v in lv]
